@@ -1,6 +1,7 @@
 package c12
 
 import (
+	"os"
 	"sort"
 	"testing"
 
@@ -27,6 +28,48 @@ var fixedPlans = map[string]plan{
 		{Method: "RECORD", PathSym: "pub"},
 		{Method: "PLAY", PathSym: "pub"},
 		{Method: "TEARDOWN", PathSym: "pub"},
+	}},
+	// refused requests used to leave their half-applied changes in the session
+	"refused-describe-keeps-path": {Transport: "tcp", End: "close", Steps: []step{
+		{Method: "DESCRIBE", PathSym: "live"},
+		{Method: "DESCRIBE", PathSym: "missing"},
+		{Method: "SETUP", PathSym: "live", Track: "video", Trans: "tcp"},
+		{Method: "PLAY", PathSym: "live"},
+	}},
+	"refused-setup-keeps-mode": {Transport: "tcp", End: "close", Steps: []step{
+		{Method: "DESCRIBE", PathSym: "live"},
+		{Method: "SETUP", PathSym: "live", Track: "video", Trans: "tcp"},
+		{Method: "SETUP", PathSym: "live", Track: "audio", Trans: "tcp", Mode: "record", ModeText: "mode=record"},
+		{Method: "SETUP", PathSym: "live", Track: "audio", Trans: "tcp"},
+		{Method: "PLAY", PathSym: "live"},
+	}},
+	"refused-setup-keeps-transport-type": {Transport: "tcp", End: "close", CheckFrames: true, Steps: []step{
+		{Method: "DESCRIBE", PathSym: "live"},
+		{Method: "SETUP", PathSym: "live", Track: "video", Trans: "tcp"},
+		{Method: "SETUP", PathSym: "live", Track: "audio", Trans: "mcast"},
+		{Method: "PLAY", PathSym: "live"},
+	}},
+	"refused-record-setup-keeps-transport-type": {Transport: "tcp", End: "close", Steps: []step{
+		{Method: "ANNOUNCE", PathSym: "pub", SDP: "valid"},
+		{Method: "SETUP", PathSym: "pub", Track: "video", Trans: "tcp", Mode: "record", ModeText: "mode=record"},
+		{Method: "SETUP", PathSym: "pub", Track: "audio", Trans: "udp", Mode: "record", ModeText: "mode=record"},
+		{Method: "RECORD", PathSym: "pub"},
+	}},
+	"refused-announce-keeps-description": {Transport: "tcp", End: "close", Steps: []step{
+		{Method: "ANNOUNCE", PathSym: "pub", SDP: "valid"},
+		{Method: "ANNOUNCE", PathSym: "pub2", SDP: "garbage"},
+		{Method: "SETUP", PathSym: "pub", Track: "video", Trans: "tcp", Mode: "record", ModeText: "mode=record"},
+		{Method: "RECORD", PathSym: "pub"},
+	}},
+	"new-description-drops-old-tracks": {Transport: "tcp", End: "close", Steps: []step{
+		{Method: "DESCRIBE", PathSym: "live"},
+		{Method: "ANNOUNCE", PathSym: "pub", SDP: "videoonly"},
+		{Method: "SETUP", PathSym: "pub", Track: "audio", Trans: "tcp", Mode: "record", ModeText: "mode=record"},
+	}},
+	"record-mode-rfc-spelling": {Transport: "tcp", End: "close", Steps: []step{
+		{Method: "ANNOUNCE", PathSym: "pub", SDP: "valid"},
+		{Method: "SETUP", PathSym: "pub", Track: "video", Trans: "tcp", Mode: "record", ModeText: "mode=\"RECORD\""},
+		{Method: "RECORD", PathSym: "pub"},
 	}},
 	"legal-play-ws": {Transport: "ws", WSPathSym: "live", End: "close", CheckFrames: true, Steps: []step{
 		{Method: "OPTIONS", PathSym: "live"},
@@ -67,6 +110,10 @@ func TestFixedPlans(t *testing.T) {
 			t.Fatalf("%s: %v", name, err)
 		}
 		if fail != nil {
+			if os.Getenv("C12_ALL_FIXED") != "" { // development aid: list every failing plan
+				t.Errorf("fixed plan %s: %s: %s", name, fail.check, fail.msg)
+				continue
+			}
 			evid.Violation(t, "fixed-"+name+"-"+fail.check, rep, "fixed plan %s: %s", name, fail.msg)
 		}
 		record(&p, out)
